@@ -2,6 +2,7 @@ SPECIFICATION MCSpec
 CONSTANTS
   DELETE_MODE = "swap-remove"
   COMPLETE_ZERO = TRUE
+  STRIP_TE = TRUE
   MaxOps = 3
   SHARD = 0
   NSHARDS = 1
